@@ -22,6 +22,8 @@ def main(tier):
         replay.run_cfg(chk, module, consts, label, invariants=inv)
     keyword_laws(chk, tier)
     trace_part(chk, tier)
+    from harness import parsebind
+    parsebind.part(chk, tier, 'trace-parse', n_quick=300, n_thorough=4000, seed=2)     # An+B texts -> IR (incl. the implied of *|*) by Lexer + ParseSel + Ir
     from harness import suite
     suite.part(chk, 'C02')      # the repository's own test-suite as a trace corpus
     return chk.finish()
@@ -68,7 +70,17 @@ def trace_part(chk, tier):
                 cx = {'cs': [gen.rand_compound(rng, 0), comp], 'cb': [rng.choice(gen.COMBS)]}
             asts.append([cx])
         els = [i + 1 for i, kk in enumerate(d['kind']) if kk == 'e']
-        jobs.append(('n%d' % k, d, asts, [0] + ([rng.choice(els)] if len(els) > 1 else []), None))
+        nsmap = None
+        if k % 4 == 3:
+            # siblings in different namespaces and a caller map with a DEFAULT namespace: plain :nth-child() still counts every sibling
+            # (the implied "of *|*"), while a type selector in the compound is subject to the default namespace
+            for i in els:
+                r = rng.random()
+                d['ns'][i - 1] = common.cps('urn:a') if r < 0.4 else common.cps('urn:b') if r < 0.6 else []
+            nsmap = {'': rng.choice(['urn:a', 'urn:b', 'urn:zz'])}
+            if rng.random() < 0.5:
+                nsmap['p'] = 'urn:b'
+        jobs.append(('n%d' % k, d, asts, [0] + ([rng.choice(els)] if len(els) > 1 else []), nsmap))
     lines = trace.record_select(jobs)
     trace.validate(chk, lines, 'Trace_Select', 'trace-nth')
     e = json.loads(lines[0])
